@@ -2,6 +2,7 @@ package main
 
 import (
 	"bufio"
+	"sort"
 	"encoding/json"
 	"fmt"
 	"os"
@@ -49,3 +50,19 @@ func scanTLC(path string, fn func(tag string, js []byte) error) error {
 	}
 	return sc.Err()
 }
+
+// sortByKey sorts n items by their key so that the order of the cases does not
+// depend on the order in which TLC's workers happened to print them.
+func sortByKey(n int, key func(i int) string, swap func(i, j int)) {
+	sort.Sort(&keySorter{n: n, key: key, swap: swap})
+}
+
+type keySorter struct {
+	n    int
+	key  func(i int) string
+	swap func(i, j int)
+}
+
+func (k *keySorter) Len() int           { return k.n }
+func (k *keySorter) Less(i, j int) bool { return k.key(i) < k.key(j) }
+func (k *keySorter) Swap(i, j int)      { k.swap(i, j) }
